@@ -79,5 +79,26 @@ Case == [k |-> "emp", id |-> Catalog[ci].id, L |-> L, addr |-> addr, mode |-> mo
                   size |-> IF B.ok THEN Size(B.tree, T) ELSE 0]]
 Emit == mode # "seed" => PrintT(<<"CASE", ToJson(Case)>>)
 
+\* all theorems and the emission in one invariant: Build is evaluated once per state
+All ==
+  mode # "seed" =>
+    LET b == B  act == addr % Align(T) = 0 /\ b.ok IN
+    /\ (act => /\ RoundTrip(b.tree, T, L) /\ SizeSufficient(b.tree, T, L) /\ LenLeCap(b.tree, T)
+               /\ SameContent(b.tree, Remap(b.tree, T, L), T)
+               /\ (mode = "default" => Size(b.tree, T) = MinSize(T) \/ T.k = "enum")
+               /\ ((IsPortable(T) /\ ~HasSizedDataEnum(T) /\ ~(T.k = "enum" /\ T.size > 1)) =>
+                      LET img == Enc(b.tree, T, L) IN \A i \in 1..Size(b.tree, T) : img[i] # ANY))
+    /\ ((addr = 0 /\ b.ok /\ L < MaxL(T)) => Build(Cont, T, L + 1).ok)
+    /\ LET oc == IF addr % Align(T) # 0 THEN [o |-> "err", kinds |-> IF L >= MinSize(T) THEN <<"BadAlign">> ELSE <<"BadAlign", "InsufficientSize">>]
+                  ELSE IF b.ok THEN [o |-> "ok", kinds |-> <<>>]
+                  ELSE IF L >= MinSize(T) /\ Build(Cont, T, L + Align(T) - 1).ok THEN [o |-> "either", kinds |-> <<"InsufficientSize">>]
+                  ELSE [o |-> "err", kinds |-> <<"InsufficientSize">>]
+       IN PrintT(<<"CASE", ToJson([k |-> "emp", id |-> Catalog[ci].id, L |-> L, addr |-> addr, mode |-> mode, content |-> Cont,
+                                   portable |-> IsPortable(T), hasdefault |-> HasDefault(T), sized |-> IsSized(T),
+                                   exp |-> [o |-> oc.o, kinds |-> oc.kinds,
+                                            tree |-> IF b.ok THEN b.tree ELSE <<>>,
+                                            img |-> IF b.ok THEN Enc(b.tree, T, L) ELSE <<>>,
+                                            size |-> IF b.ok THEN Size(b.tree, T) ELSE 0]])>>)
+
 AllIds == CatIds
 =============================================================================
